@@ -47,6 +47,8 @@ type Profile struct {
 	SizeFlip     bool   // a sink symbol is loaded under a size limit in some nodes
 	EndAfterInput bool  // end nodes of the shape HALT; INCMP t 1; HALT
 	FallMove     bool   // menu nodes that end in a MOVE behind their INCMP lines
+	HugePages    bool   // accepted values of about 65535 bytes (pages just over 64 KiB)
+	PreludeIncmp bool   // INCMP lines before a node's HALT
 	ManySyms     bool   // up to 28 external symbols, nodes that load up to 20 of them
 	Unicode      bool   // multi-byte UTF-8 in labels, translations, static template text and padded values
 	StaticSyms   bool   // some external symbols are static-load symbols with per-language entries
@@ -325,6 +327,14 @@ func Generate(t *tape.Tape, p Profile) *App {
 				}
 				code = append(code, Inst{Op: LOAD, A: e.Name, N: e.Size})
 				loaded = append(loaded, e.Name)
+			}
+		}
+		// an INCMP line in the prelude: it is reached in the same run as the INCMP line that brought the
+		// session here (through action nodes, directly) and sees the same input - which has been spent
+		if p.PreludeIncmp && i > 0 && gn[i].kind != KAction {
+			it := immTargets(i)
+			if len(it) > 0 && t.Chance(1, 4) {
+				code = append(code, Inst{Op: INCMP, A: nodeName(it[t.Int(len(it))]), B: []string{"0", "1", "2", "*"}[t.Weighted(3, 3, 2, 1)]})
 			}
 		}
 		// flag-steered control flow in the prelude
@@ -751,6 +761,10 @@ func genBehav(t *tape.Tape, p Profile, e *ExtSym) ExtBehav {
 				b.Len = s
 				if s > 400 {
 					b.Len = 8
+					if p.HugePages && s == 65535 && t.Chance(1, 2) {
+						// a value that fills its 16-bit limit (almost): the page around it is a little more than 64 KiB
+						b.Len = 65535 - t.Int(48)
+					}
 				}
 			case 2:
 				b.Len = 1 + t.Int(min(s, 30))
